@@ -244,18 +244,68 @@ class Case:
         return hashlib.sha1("\n".join(self.ops).encode()).hexdigest()
 
 
-def run_stream(binary, engine, text, timeout=1800):
-    try:
-        rc, out, err = run([binary, engine], inp=text.encode(), timeout=timeout)
-    except subprocess.TimeoutExpired as e:
-        # a hang is an observation: keep what was printed so far
-        return -999, (e.stdout or b"").decode(errors="replace"), "TIMEOUT after %ss" % timeout
-    return rc, out.decode(errors="replace"), err.decode(errors="replace")
+# engines whose every step is deterministic and short: no output for this long means a step blocks
+IDLE_LIMIT = {"api": 8, "machine": 8, "slots": 30, "smoother": 8, "framebuf": 8, "tune": 8, "url": 8, "urlparts": 8}
+
+
+def run_stream(binary, engine, text, timeout=1800, idle=None):
+    """Run `binary engine` on `text`.  A hang is an observation: (-999, what was printed so far, why).
+    `idle`: give up when nothing has been printed for that many seconds (a blocked step) instead of
+    waiting for the whole `timeout`."""
+    if idle is None:
+        try:
+            rc, out, err = run([binary, engine], inp=text.encode(), timeout=timeout)
+        except subprocess.TimeoutExpired as e:
+            return -999, (e.stdout or b"").decode(errors="replace"), "TIMEOUT after %ss" % timeout
+        return rc, out.decode(errors="replace"), err.decode(errors="replace")
+    import selectors, threading
+    p = subprocess.Popen([binary, engine], stdin=subprocess.PIPE, stdout=subprocess.PIPE, stderr=subprocess.PIPE)
+
+    def feed():
+        try:
+            p.stdin.write(text.encode())
+            p.stdin.close()
+        except (BrokenPipeError, OSError):
+            pass
+    errbuf = []
+    threading.Thread(target=feed, daemon=True).start()
+    threading.Thread(target=lambda: errbuf.append(p.stderr.read()), daemon=True).start()
+    sel = selectors.DefaultSelector()
+    sel.register(p.stdout, selectors.EVENT_READ)
+    os.set_blocking(p.stdout.fileno(), False)
+    chunks = []
+    t0 = last = time.time()
+    why = None
+    while True:
+        ev = sel.select(timeout=0.5)
+        now = time.time()
+        if ev:
+            data = p.stdout.read()
+            if data:
+                chunks.append(data)
+                last = now
+            elif data == b"":
+                break
+        if now - last > idle:
+            why = "TIMEOUT: no output for %ss (a step does not return)" % idle
+            break
+        if now - t0 > timeout:
+            why = "TIMEOUT after %ss" % timeout
+            break
+    out = b"".join(chunks).decode(errors="replace")
+    if why:
+        p.kill()
+        p.wait()
+        return -999, out, why
+    rc = p.wait()
+    time.sleep(0.01)
+    return rc, out, (errbuf[0] if errbuf else b"").decode(errors="replace")
 
 
 def run_cases(binary, engine, cases, timeout=1800):
     text = "".join(c.text() for c in cases)
-    rc, out, err = run_stream(binary, engine, text, timeout)
+    idle = IDLE_LIMIT.get(engine) if binary == PROBE else None
+    rc, out, err = run_stream(binary, engine, text, timeout, idle=idle)
     by, _ = split_cases(out)
     return rc, by, err
 
